@@ -87,14 +87,17 @@ PartTensor(P, C, cs, part) ==
   LET cell == P.cell  td == P.tdim  gd == P.gdim
       itype == P.itype
       nsides == IF itype = "interior_facet" THEN 2 ELSE 1
+      \* where the rule's points live: on the cell, on a facet, or at a vertex
+      ptype == IF itype = "expression" THEN P.etype
+               ELSE IF itype = "cell" THEN "cell" ELSE IF itype = "vertex" THEN "vertex" ELSE "facet"
       NQ == Len(part.wts)
       XS == P.spaces[P.coord]                              \* coordinate element: blocked scalar space
       nxn == XS.subs[1].nn
       xtab == part.tabs[XS.subs[1].tab]                    \* [side][deriv][q][node][1]
       \* reference-cell point of quadrature point q on side s, recomputed here
       Xq(s, q) ==
-        IF itype = "cell" THEN RSeq(part.pts[q])
-        ELSE IF itype = "vertex" THEN RefVerts(cell)[C.ent[s] + 1]
+        IF ptype = "cell" THEN RSeq(part.pts[q])
+        ELSE IF ptype = "vertex" THEN RefVerts(cell)[C.ent[s] + 1]
         ELSE FacetPoint(cell, C.ent[s] + 1,
                         PermPoint(FacetCell(cell, C.ent[s] + 1), C.perm[s], RSeq(part.pts[q])))
       PointsAgree == \A s \in 1..nsides, q \in 1..NQ : Xq(s, q) = RSeq(part.xq[s][q])
@@ -140,10 +143,12 @@ PartTensor(P, C, cs, part) ==
                       IN [c \in 1..gd |-> [a \in 1..(td - 1) |->
                             LET F(k) == RMul(Jac[s][q][c][k], ax[a][k]) IN RSumTo(F, td)]]
       Scale(q) ==
-        IF itype = "cell" THEN RAbs(DetJ[1][q])
+        IF itype = "expression" THEN One
+        ELSE IF itype = "cell" THEN RAbs(DetJ[1][q])
         ELSE IF itype = "vertex" \/ td = 1 THEN One
         ELSE RSqrt(Det(Gram(FacetJ(1, q))))
-      ScaleOk(q) == IF itype = "cell" THEN (td = gd \/ RIsSquare(Det(Gram(Jac[1][q]))))
+      ScaleOk(q) == IF itype = "expression" THEN (td = gd \/ RIsSquare(Det(Gram(Jac[1][q]))))
+                    ELSE IF itype = "cell" THEN (td = gd \/ RIsSquare(Det(Gram(Jac[1][q]))))
                     ELSE IF itype = "vertex" \/ td = 1 THEN TRUE
                     ELSE RIsSquare(Det(Gram(FacetJ(1, q))))
       \* physical outward unit normal on side s
@@ -280,7 +285,8 @@ PartTensor(P, C, cs, part) ==
                  /\ part.has_cond => \A q \in 1..NQ : ~Knife(part.tree, q)
       WQ == [q \in 1..NQ |-> RMul(R(part.wts[q]), Scale(q))]
       WQM == [q \in 1..NQ |-> Up(RMul(RAbs(R(part.wts[q])),
-                IF itype = "cell" THEN PJ[1][q]
+                IF itype = "expression" THEN One
+                ELSE IF itype = "cell" THEN PJ[1][q]
                 ELSE IF itype = "vertex" \/ td = 1 THEN One ELSE RMul(RInt(td), PJ[1][q])))]
       n0 == IF P.rank >= 1 THEN nsides * ArgDim(0) ELSE 1
       n1 == IF P.rank >= 2 /\ ~P.diagonal THEN nsides * ArgDim(1) ELSE 1
@@ -295,6 +301,9 @@ PartTensor(P, C, cs, part) ==
         IN QA(NQ)
   IN IF ~PointsAgree THEN <<"points-disagree">>
      ELSE IF ~InRange THEN <<"out-of-range">>
+     ELSE IF itype = "expression"
+          THEN \* no quadrature sum: A[point][component][dof]; this part is one component, indexed [dof][point]
+               <<"ok", [i \in 0..(n0 - 1) |-> [qq \in 0..(NQ - 1) |-> Ev(part.tree, qq + 1, i, 0)]], Amp>>
      ELSE <<"ok", [i \in 0..(n0 - 1) |-> [j \in 0..(n1 - 1) |-> Entry(i, j)]], Amp>>
 
 CaseTensor(c) ==
@@ -302,6 +311,11 @@ CaseTensor(c) ==
       parts == [k \in 1..Len(C.parts) |-> PartTensor(P, C, cs, C.parts[k])]
       bad == {k \in 1..Len(parts) : parts[k][1] # "ok"}
   IN IF bad # {} THEN <<parts[CHOOSE k \in bad : TRUE][1]>>
+     ELSE IF P.itype = "expression"
+          THEN <<"ok-expr", [k \in 1..Len(parts) |-> parts[k][2]],
+                 LET RECURSIVE AE(_)
+                     AE(k) == IF k = 0 THEN One ELSE LET h == AE(k - 1) IN IF RLt(h, parts[k][3]) THEN parts[k][3] ELSE h
+                 IN AE(Len(parts))>>
      ELSE LET t1 == parts[1][2]
               RECURSIVE Acc(_, _, _)
               Acc(k, i, j) == IF k = 0 THEN <<CZero, Zero>>
